@@ -558,6 +558,8 @@ impl C14 {
             new_out.push(frames);
         }
         // pass 2: completions
+        #[allow(clippy::type_complexity)]
+        let mut reads: Vec<(usize, u64, bool, u16, usize, usize, Vec<u8>, bool)> = vec![];
         for si in 0..nsides {
             let sent_total = sess.sent_total;
             let s = &mut sess.sides[si];
@@ -620,6 +622,7 @@ impl C14 {
                                     let eos = b.len() < n;
                                     done.push(json!([si, slot, "read", hex(&b), eos as u8]));
                                     self_check_read(si, slot, h, &b, eos, raw, sess_peer(&sess.peer, h), &mut fail);
+                                    reads.push((si, slot, h.conn, h.id, h.sess, h.nread, b.clone(), eos));
                                     h.nread += b.len();
                                 }
                                 Err(e) => done.push(json!([si, slot, "readerr", e])),
@@ -629,23 +632,29 @@ impl C14 {
                 }
             }
         }
-        // pass 2b (pair mode): bytes read equal the counterpart's written bytes of the same session
-        if !raw {
-            for si in 0..nsides {
+        // pass 2b: what a transient stream returned against what its counterpart sent in the same session
+        for (si, slot, conn, id, sn, off, b, eos) in &reads {
+            let (si, slot, conn, id, sn, off, eos) = (*si, *slot, *conn, *id, *sn, *off, *eos);
+            let up = run_class(&sess.sides[si].run) == "up";
+            if raw {
+                let closed = sess.peer.get(&(conn, id)).and_then(|pk| pk.sessions.get(sn)).map(|x| x.1).unwrap_or(false);
+                let wf = sess.peer.get(&(conn, id)).map(|pk| pk.wf).unwrap_or(true);
+                if eos && up && wf && !closed {
+                    fail("eos_without_close", format!("side {si} slot {slot} ({conn},{id}) session {sn}: end of stream, but the peer sent no CLOSE on this stream"));
+                }
+            } else {
                 let other = 1 - si;
-                let checks: Vec<(u64, bool, u16, usize, usize)> = sess.sides[si]
-                    .slots
-                    .iter()
-                    .filter_map(|(k, v)| match v {
-                        SlotSt::Held(h) => Some((*k, h.conn, h.id, h.sess, h.nread)),
-                        _ => None,
-                    })
-                    .collect();
-                for (slot, conn, id, sn, nread) in checks {
-                    let wl = sess.sides[other].written.get(&(!conn, id, sn)).map(|(w, _)| w.len());
-                    match wl {
-                        Some(l) if nread <= l => {}
-                        _ => fail("read_more_than_written", format!("side {si} slot {slot} ({conn},{id}) session {sn}: read {nread} bytes, counterpart wrote {wl:?}")),
+                // (the counterpart's transient stream of this session may not have been handed over yet: nothing written)
+                let empty = (vec![], false);
+                let (w, wclosed) = sess.sides[other].written.get(&(!conn, id, sn)).unwrap_or(&empty);
+                if w.len() < off + b.len() || w[off..off + b.len()] != b[..] {
+                    fail("read_bytes_mismatch", format!("side {si} slot {slot} ({conn},{id}) session {sn}: {} bytes read at offset {off} are not what the counterpart wrote ({} bytes so far)", b.len(), w.len()));
+                }
+                if eos && up && run_class(&sess.sides[other].run) == "up" {
+                    if !*wclosed {
+                        fail("eos_without_close", format!("side {si} slot {slot} ({conn},{id}) session {sn}: end of stream while the counterpart's write half is still open"));
+                    } else if off + b.len() != w.len() {
+                        fail("eos_before_all_data", format!("side {si} slot {slot} ({conn},{id}) session {sn}: end of stream after {} of {} bytes", off + b.len(), w.len()));
                     }
                 }
             }
